@@ -14,7 +14,23 @@ def sh(cmd, **kw):
     return subprocess.run(cmd, shell=True, capture_output=True, text=True, **kw)
 
 
+def table():
+    head = sh("git -C /repo rev-parse --short HEAD").stdout.strip()
+    with open(os.path.join(VERIF, "seeded", "MATRIX.md"), "w") as f:
+        f.write("# Seeded changes versus checks (each re-confirmed in a scratch worktree; see meta.json 'final_verification')\n\n")
+        f.write("| seed | property | confirmed at HEAD | still breaks the property | quick check exit | detected | first witness |\n|---|---|---|---|---|---|---|\n")
+        for d in sorted(glob.glob(os.path.join(VERIF, "seeded", "C*"))):
+            m = json.load(open(os.path.join(d, "meta.json")))
+            fv = m.get("final_verification", {})
+            f.write("| %s | %s | %s | %s | %s | %s | %s |\n" % (m["id"], m["breaks_property"], fv.get("repo_head"), fv.get("still_a_valid_seed"),
+                                                           fv.get("check_exit"), fv.get("detected"), (fv.get("first_violation") or "").replace("|", "/")[:150]))
+    print(open(os.path.join(VERIF, "seeded", "MATRIX.md")).read()[:300])
+
+
 def main():
+    if sys.argv[1:] == ["--table"]:
+        table()
+        return 0
     ids = sys.argv[1:] or sorted(os.path.basename(d) for d in glob.glob(os.path.join(VERIF, "seeded", "C*")))
     head = sh("git -C /repo rev-parse --short HEAD").stdout.strip()
     sh("git -C /repo worktree remove --force %s" % WT)
